@@ -680,6 +680,30 @@ def coq_text(sup, mn_id, fid, nchunk=100, exsup=()):
     L.append("(* every row's operand syntaxes are inverted by unbind1 and its hi register ids are SP/ZR: scope of C02_operands_recovered / C02_refusal_exact *)")
     L.append("Lemma rows_all_inv : forallb row_inv rows = true.")
     L.append("Proof. vm_compute. reflexivity. Qed.")
+    L.append("(* every row satisfies the side conditions of canonical re-encoding: an omitted shift can be written LSL #0, lists are non-empty, the extended register is the last operand: scope of C02_canonical_reencodes *)")
+    L.append("Lemma rows_canon_ok : forallb (fun r => canon_row_ok (r_ops r)) rows = true.")
+    L.append("Proof. vm_compute. reflexivity. Qed.")
+    nsimple = 0
+    for e in sup:
+        fs = [it for it in e["items"] if it[0] == "V"]
+        if all(it[3] == 0 for it in fs) and len({it[1] for it in fs}) == len(fs):
+            nsimple += 1
+    BIJ = {"SGp", "SImmU", "SImmS", "SImmLt", "SImmConst", "SRel", "SMemOff", "SMemLit", "SVec", "SVecElem", "SSysReg", "SImmRsub", "SImmAff",
+           "SMemPostImm", "SMemPostReg", "SSysOp", "SCond", "SShift", "SVShift", "SMemBase", "SGpPair", "SMovW",
+           "SVecList", "SVecListElem", "SFpImm", "SAddImm", "SExtReg"}
+    nbij = 0
+    for e in sup:
+        fs = [it for it in e["items"] if it[0] == "V"]
+        if all(it[3] == 0 for it in fs) and len({it[1] for it in fs}) == len(fs) and all(sy[0] in BIJ for sy in e["syn"]):
+            nbij += 1
+    L.append("(* rows whose operand syntaxes are all bijective (syn_bij) and whose template is simple: scope of C02_image_characterised *)")
+    L.append("Definition bij_rows_count : Z := %d." % nbij)
+    L.append("Lemma bij_rows_counted : Z.of_nat (length (filter (fun r => forallb syn_bij (r_ops r) && tsimple (r_tmpl r)) rows)) = bij_rows_count.")
+    L.append("Proof. vm_compute. reflexivity. Qed.")
+    L.append("(* rows whose template writes every field as one whole slice: scope of C02_tmpl_complete_simple (the others split a field into slices) *)")
+    L.append("Definition simple_rows_count : Z := %d." % nsimple)
+    L.append("Lemma simple_rows_counted : Z.of_nat (length (filter (fun r => tsimple (r_tmpl r)) rows)) = simple_rows_count.")
+    L.append("Proof. vm_compute. reflexivity. Qed.")
     L += coq_examples(sup, mn_id)
     return "\n".join(L) + "\n"
 
@@ -713,7 +737,14 @@ def coq_examples(sup, mn_id):
         want = "Some [%s]" % "; ".join(str(w) for w in words) if words is not None else "None"
         L.append("Example %s : ex_words (spec_a64 rows alt_table mov_mn %d %s) = %s." % (name, mn_id[mn], ops, want))
         L.append("Proof. vm_compute. reflexivity. Qed.")
-    # operands recovered / refusal exactness on a concrete row: the first ADD (shifted register) row
+    # canonical re-encoding on a real row: ADD Xd, Xn, Xm without a shift decodes to the explicit LSL #0 form, which encodes to the same word
+    rid = {e["row"]["inst"]: e["row"]["idx"] for e in sup}.get("add Xd, Xn, Xm, {lsl|lsr|asr #n}")
+    if rid is not None:
+        L += ["Example ex_canonical_reencodes : match find (fun r => r_id r =? %d) rows with Some r =>" % rid,
+              "    spec_row r [OGp true 1; OGp true 2; OGp true 3] = Some 2332229697 /\\",
+              "    decode_row r 2332229697 = [OGp true 1; OGp true 2; OGp true 3; OImm 0 0] /\\",
+              "    spec_row r (decode_row r 2332229697) = Some 2332229697 | None => False end.",
+              "Proof. vm_compute. repeat split; reflexivity. Qed."]
     return L
 
 
@@ -730,7 +761,7 @@ def coq_disjoint_text(sup):
     L.append(";\n".join("  (%d, %d, %d)" % p[:3] for p in ov))
     L += ["].", "Definition overlap_count : Z := %d." % len(ov),
           "(* every two rows either have different fixed bits on a common fixed position, or are the same row, or are a recorded pair *)",
-          "Lemma rows_pairwise : sigs_pairwise_ok overlap_pairs (map row_sig rows) = true.", "Proof. vm_compute. reflexivity. Qed.",
+          "Lemma rows_pairwise : sigs_tails_ok overlap_pairs (map row_sig rows) = true.", "Proof. vm_compute. reflexivity. Qed.",
           "Lemma overlap_pairs_tight : overlap_tight overlap_pairs (map row_sig rows) = true.", "Proof. vm_compute. reflexivity. Qed.",
           "Lemma overlap_counted : Z.of_nat (length overlap_pairs) = overlap_count.", "Proof. vm_compute. reflexivity. Qed."]
     byinst = {e["row"]["inst"]: e["row"]["idx"] for e in sup}
